@@ -759,7 +759,7 @@ end sound
 /-- **The soft requirement** (known defect): a bare version such as `"1.0"` parses to the
 "everything" restriction with both bounds `None`; `lower_bound == upper_bound` holds, and the
 converter emits `=` with the version text `str(None) = "None"`: `vers:maven/None`.  For NuGet the
-version class rejects `"None"` with `InvalidNuGetVersion` (not a `ValueError`). -/
+version class rejects `"None"` with `InvalidVersion`. -/
 theorem maven_soft_requirement_counterexample (mkVer : List Char → Except TErr (List Char))
     (vcmp : List Char → List Char → Ordering) :
     fromNative mkVer vcmp ['1', '.', '0'] =
@@ -865,14 +865,6 @@ example : fromNative (fun t => .ok t) toyCmp " [1, 22],(333,) [4444]".toList =
 example (vcmp : List Char → List Char → Ordering) (mkVer : List Char → Except TErr (List Char)) :
     fromNative mkVer vcmp "[1,2,3]".toList = .error .ValueError := rfl
 
-/-- **NuGet, the constructor's `sorted`** (defect, Python witness
-`NugetVersionRange.from_native("[],[1,2]")` → `TypeError`): `[]` gives the `None`-valued
-`NugetVersion("")`, which cannot be ordered against a proper version -/
-theorem nuget_sort_guard_counterexample :
-    nugetSortGuard [.mk .eq "None".toList, .mk .ge "1.0.0".toList, .mk .le "2.0.0".toList] =
-      .error .TypeError := rfl
-
-
 /-! ### instantiation with the Layer-A models `Univers.Maven`, `Univers.Nuget`
 
 The same definitions as `mavenVcmp`, `mavenMk`, `nugetMk` of `Univers/Driver/MavenConan.lean`,
@@ -935,18 +927,12 @@ theorem maven_equal_bounds_counterexample :
     sat realVcmp "[1,1-0.1]".toList "1-0.2".toList = .ok false := by
   refine ⟨by decide +kernel, by decide +kernel, by decide +kernel⟩
 
-/-- the soft requirement with the real version classes: `vers:maven/None`, and for NuGet an
-exception that is not a `ValueError` -/
+/-- the soft requirement with the real version classes: `vers:maven/None`; for NuGet the version
+class rejects `"None"` with `InvalidVersion` (declared) -/
 theorem maven_soft_requirement_real :
     fromNative mavenMk realVcmp "1.0".toList = .ok [.mk .eq "None".toList] ∧
-    fromNative nugetMk realVcmp "1.0".toList = .error (.other "InvalidNuGetVersion") ∧
-    declared (.other "InvalidNuGetVersion") = false := by
-  refine ⟨by decide +kernel, by decide +kernel, by rfl⟩
-
-/-- `NugetVersionRange.from_native("[],[1,2]")` → `TypeError` from the constructor's `sorted` -/
-theorem nuget_sort_counterexample :
-    (fromNative nugetMk realVcmp "[],[1,2]".toList >>= nugetSortGuard) = .error .TypeError := by
-  decide +kernel
+    fromNative nugetMk realVcmp "1.0".toList = .error .InvalidVersion := by
+  refine ⟨by decide +kernel, by decide +kernel⟩
 
 theorem mavenMk_eq (t : List Char) : mavenMk t = .ok (Maven.normalizeStr t) := rfl
 
@@ -978,24 +964,24 @@ theorem maven_native_declared_real (vcmp : List Char → List Char → Ordering)
       ∃ e, fromNative mavenMk vcmp t = .error e ∧ declared e = true :=
   maven_native_declared mavenMk vcmp (fun v e h => by simp [mavenMk, Maven.construct] at h) t
 
-/-- **declared errors, NuGet**: besides the `ValueError` family only the two errors of
-`NugetVersion(...)`: `InvalidVersion` (declared) and `InvalidNuGetVersion` (not a `ValueError`:
-defect) — and the `TypeError` of `sorted`, which is outside `fromNative` (`nugetSortGuard`) -/
-theorem nuget_native_errors (vcmp : List Char → List Char → Ordering) (t : List Char) (e : TErr)
-    (h : fromNative nugetMk vcmp t = .error e) :
-    declared e = true ∨ e = .other "InvalidNuGetVersion" := by
-  rcases maven_native_errors nugetMk vcmp t e h with h' | ⟨v, hv⟩
-  · exact .inl (declared_of_range_error h')
-  · unfold nugetMk at hv
-    split at hv
-    · cases hv
-    · cases hv; exact .inl rfl
-    · rename_i n hn
-      cases hv
-      right
-      unfold Nuget.construct at hn
-      simp only at hn
-      repeat' split at hn
-      all_goals (cases hn; try rfl)
+theorem nugetMk_error {v : List Char} {e : TErr} (h : nugetMk v = .error e) :
+    e = .InvalidVersion := by
+  unfold nugetMk at h
+  split at h
+  · cases h
+  · cases h; rfl
+  · rename_i n hn
+    unfold Nuget.construct at hn
+    simp only at hn
+    repeat' split at hn
+    all_goals cases hn
+
+/-- **declared errors, NuGet**: `NugetVersion(...)` raises `InvalidVersion` only, so `from_native`
+returns or raises an error of the `ValueError` family — for every text.  (`NugetVersion("")` is
+no longer accepted with the value `None`, so the constructor's `sorted` cannot raise either.) -/
+theorem nuget_native_declared_real (vcmp : List Char → List Char → Ordering) (t : List Char) :
+    (∃ cs, fromNative nugetMk vcmp t = .ok cs) ∨
+      ∃ e, fromNative nugetMk vcmp t = .error e ∧ declared e = true :=
+  maven_native_declared nugetMk vcmp (fun v e h => by rw [nugetMk_error h]; rfl) t
 
 end Univers.Text.MavenRange
